@@ -45,6 +45,8 @@ def configs(tier, seed):
     for cls in ("BottomUpDataset", "CenteredInstanceDataset", "CentroidDataset", "SingleInstanceDataset"):
         for anchor in ((0, None) if cls in ("CenteredInstanceDataset", "CentroidDataset") else (None,)):
             out.append(dict(kind="dataset", cls=cls, anchor=anchor, seqlen=(1 if cls == "BottomUpDataset" else 2) if tier == "quick" else (2 if cls == "BottomUpDataset" else 3)))
+        # the predicted instance listed BEFORE the user instances (index into user_instances != index into lf.instances)
+        out.append(dict(kind="dataset", cls=cls, anchor=0 if cls in ("CenteredInstanceDataset", "CentroidDataset") else None, seqlen=1, pred_first=True))
     out += [dict(kind="readerdp", user_only=True), dict(kind="readerdp", user_only=False)]
     return out
 
@@ -220,8 +222,9 @@ def _run_purity(cfg):
 
 
 # ------------------------------------------------------------------ datasets
-def _make_labels(sym=True, env=None, with_b=False):
-    """2 frames; frame 0: user A (2 nodes), empty user instance, [user B after the empty one,] predicted P; frame 1: user C.
+def _make_labels(sym=True, env=None, with_b=False, pred_first=False):
+    """2 frames; frame 0: user A (2 nodes), empty user instance, [user B after the empty one,] predicted P (listed last, or first with pred_first:
+    the layout a corrected prediction leaves behind, where positions in the user-instance list and in lf.instances differ); frame 1: user C.
     Keypoints symbolic (or concrete from env)."""
     import numpy as np
     from symx.xf import XF
@@ -242,7 +245,7 @@ def _make_labels(sym=True, env=None, with_b=False):
     insts0 = [fakes.FInst(inst("A"), True, "A"), fakes.FInst(empty.astype(object).view(SymNd) if sym else empty, True, "E")]
     if with_b:
         insts0.append(fakes.FInst(inst("B"), True, "B"))
-    insts0.append(fakes.FInst(inst("P"), False, "P"))
+    insts0.insert(0 if pred_first else len(insts0), fakes.FInst(inst("P"), False, "P"))
     lf0 = fakes.FLF(vid, 0, insts0, fakes.ramp_image(8, 8, 1, 0))
     lf1 = fakes.FLF(vid, 3, [fakes.FInst(inst("C"), True, "C")], fakes.ramp_image(8, 8, 1, 1))
     return fakes.FLabels([lf0, lf1], [vid])
@@ -319,7 +322,7 @@ def _run_dataset(cfg):
 
     def path():
         with T.SymMode():
-            labels = _make_labels(True, with_b=with_b)
+            labels = _make_labels(True, with_b=with_b, pred_first=cfg.get("pred_first", False))
             try:
                 ds = _make_ds(cls, anchor, labels)
                 n = len(ds)
@@ -448,7 +451,7 @@ def replay(cfg, inputs, obligation):
     import kornia.geometry.transform  # real crop
     with_b = cfg["cls"] == "CenteredInstanceDataset"
     users = ("A", "B", "C") if with_b else ("A", "C")
-    labels = _make_labels(False, env, with_b=with_b)
+    labels = _make_labels(False, env, with_b=with_b, pred_first=cfg.get("pred_first", False))
     try:
         ds = _make_ds(cfg["cls"], cfg["anchor"], labels)
         n = len(ds)
